@@ -342,7 +342,11 @@ class Executor:
         if expect == "ok" and exc is None:
             apply_model()
         self._judge(ctx, op, expect, exc, before if expect != "ok" else None, alltags)
-        if expect == "ok" and exc is None and watchers:
+        if expect == "ok" and exc is None and watchers and node.kind == "alias":
+            # replaced by an alias: whether and how other aliases can follow depends on that alias being
+            # followable (resolution matters, C06); only replacements by real objects are judged here
+            ctx.probe("replacement-by-alias-with-watchers")
+        elif expect == "ok" and exc is None and watchers:
             new_path = ".".join(path)
             for p, a in watchers:
                 if a._target is not real:
